@@ -243,6 +243,17 @@ def check(drv, pid, tier, seed):
             return 1
         print('check: cannot build (%s):\n%s' % (stage, info.get('output', '')[-3000:]))
         return 2
+    if info.get('coq_broken'):
+        # some Coq file no longer compiles; does that concern this property?  (its own files, transitively)
+        stale = drv.coq_stale(cfg['files'])
+        if stale:
+            outp = info.get('coq_output', '')
+            errs = re.findall(r'(File "\./[\w.]+", line \d+, characters [\d-]+:\n(?:.*\n){1,12}?)(?=make|File|COQC|Closed|$)', outp)
+            violation(drv, pid, dict(property=pid, seed=seed, case='proof', kind='proof-obligation', stage='coq',
+                                     theorem_or_correspondence='the Coq files of this property no longer build against the regenerated sources (Params.v / ParamsFoot.v / GenSrc.v / GenQueue.v): %s have no up-to-date compiled file; files that failed to compile: %s' % (', '.join(stale), ', '.join(f + '.v' for f in info.get('coq_failed_files', []))),
+                                     errors=[e.strip() for e in errs][:6], output=outp[-3000:]), 'no-failing-input-found')
+            return 1
+        print('(a Coq file of another property does not compile: %s; the files of %s are up to date)' % (', '.join(info.get('coq_failed_files', [])), pid), flush=True)
     outdir = os.path.join(drv.BUILD, pid)
     for old in glob.glob(os.path.join(drv.BUILD, 'replay', pid + '-*.json')):
         os.remove(old)
